@@ -351,6 +351,14 @@ def run(ctx):
                     ctx.bad("R15.6", g, "reads-environment:%s@%s" % (short(nm), _rel(g, e)), "%s calls %s on the usage() path: the text depends on the process environment, not only on the declarations"
                             % (short(g.qual), short(nm)), (g, e.get("ln")))
     ctx.need("R15.6", "calls of the wrapping routine on the usage path", nw, 2)
+    ctx.rule("R15.7", "the formatter used for default / environment hints substitutes verbatim and never rescans (R08.1, R08.3, R08.4 re-evaluated): a default containing `{}` does not break usage()")
+    if ctx.prop == "C15" and not getattr(ctx, "_sharing", False):
+        from .common import share
+        share(ctx, "C08", ("R08.1", "R08.3", "R08.4"), "R15.7", "formatter obligations shared with C08", 6)
+    ctx.rule("R15.8", "parse() does not alter what usage() prints: declaration state (defaults, names, hints) is not written on the parse path (R14.1/R14.2 re-evaluated)")
+    if ctx.prop == "C15" and not getattr(ctx, "_sharing", False):
+        from .common import share
+        share(ctx, "C14", ("R14.1", "R14.2"), "R15.8", "write-set obligations shared with C14", 6)
     # ---- R15.3
     used = set()
     for bid, i, e in usage.roots():
